@@ -107,14 +107,29 @@ func (w *World) BuildFuncUnit(con *Contract) (u *Unit) {
 		u.Failed = fmt.Sprintf("contract %s: stub has %d parameters, function has %d params + %d results + %d captures", con.Key(), len(stub.Params), len(fn.Params), nres, len(captured))
 		return
 	}
-	// check captured names/types against the declared ones
-	for i, fv := range fn.FreeVars {
-		sp := stub.Params[len(fn.Params)+nres+i]
-		et := fv.Type().Underlying().(*types.Pointer).Elem()
-		if sp.Name() != fv.Name() || !types.Identical(sp.Type(), et) {
-			u.Failed = fmt.Sprintf("contract %s: capture %d is %s %s in the code, %s %s in the contract", con.Key(), i, fv.Name(), et, sp.Name(), sp.Type())
-			return
+	// captured variables are bound by name (the order in which go/ssa lists them depends on
+	// the order of first use in the literal); types must agree
+	{
+		byName := map[string]int{}
+		for i, fv := range fn.FreeVars {
+			byName[fv.Name()] = i
 		}
+		ordered := make([][]*Term, len(captured))
+		for k := range fn.FreeVars {
+			sp := stub.Params[len(fn.Params)+nres+k]
+			i, ok := byName[sp.Name()]
+			if !ok {
+				u.Failed = fmt.Sprintf("contract %s: the literal does not capture a variable named %s", con.Key(), sp.Name())
+				return
+			}
+			et := fn.FreeVars[i].Type().Underlying().(*types.Pointer).Elem()
+			if !types.Identical(sp.Type(), et) {
+				u.Failed = fmt.Sprintf("contract %s: capture %s is %s in the code, %s in the contract", con.Key(), sp.Name(), et, sp.Type())
+				return
+			}
+			ordered[k] = captured[i]
+		}
+		captured = ordered
 	}
 	// pass A: requires + assigns (results are dummies)
 	var dummies [][]*Term
